@@ -236,7 +236,7 @@ func TestC01_Proc(t *testing.T) {
 func TestC01_Main(t *testing.T) {
 	haveBins(t, "stgutg_verif")
 	r := ev.New(t, "C01", "TestC01_Main")
-	n := ev.N(64, 1000)
+	n := ev.N(64, 3000)
 	gen := rapid.Custom(genC01("main", 3))
 	var cases []*peCase
 	if ev.Replay() == "" {
